@@ -128,7 +128,7 @@ type c17Case struct {
 	Earlier []string `json:"earlier"`
 	Last    string   `json:"last"`
 	Zsh     bool     `json:"zsh"`
-	Conv    int      `json:"convention"` // 0: Parse([]), 1: Parse([cmd, word, prev]), 2: bash's stray trailing space with a non-empty word
+	Conv    int      `json:"convention"` // 0: Parse([]), 1: Parse([cmd, word, prev]), 2: bash's stray trailing space with a non-empty word, 3: words separated by two blanks, 4: by a tab
 }
 
 func (cc *c17Case) String() string {
@@ -149,9 +149,15 @@ func c17Run(cc *c17Case) (lines []string, p *ph.Prog, o *ph.Outcome) {
 		args = []string{}
 	case 1:
 		args = []string{"prog", cc.Last, prev}
-	default:
+	case 2:
 		line += " " // bash sometimes hands over a stray trailing space although the word is not finished
 		args = []string{"prog", cc.Last, prev}
+	case 3: // the words are separated by two blanks
+		line = strings.Join(words, "  ")
+		args = []string{}
+	default: // ... or by a tab
+		line = strings.Join(words, "\t")
+		args = []string{}
 	}
 	os.Setenv("COMP_LINE", line)
 	if cc.Zsh {
@@ -195,6 +201,19 @@ func c17Judge(cc *c17Case, verbose bool) ([]string, c17Info) {
 	}
 	if len(p.Exits) == 0 {
 		out = append(out, "completion did not leave through the exit path")
+	}
+	// a fault at one point: the stream the candidates go to fails - completing still leaves through the exit path
+	if cc.Conv == 0 && !cc.Zsh && !cc.Def.CompWriterFails {
+		d2 := *cc.Def
+		d2.CompWriterFails = true
+		cc2 := *cc
+		cc2.Def = &d2
+		_, p2, o2 := c17Run(&cc2)
+		if o2.Panic != "" || o2.Hang {
+			out = append(out, "completion with a failing output stream panics or hangs: "+firstLine(o2.Panic))
+		} else if len(p2.Exits) == 0 {
+			out = append(out, fmt.Sprintf("completion with a failing output stream did not leave through the exit path (Parse returned error %q)", o2.ParseErr))
+		}
 	}
 	// zone U12: earlier words do not parse, last word in the value position of an option, after `--`
 	if exE.Err || len(exE.Unspec) > 0 || len(ex.Unspec) > 0 || ex.TermIdx >= 0 || ex.StopIdx >= 0 || len(exE.Unknowns) > 0 {
@@ -407,8 +426,8 @@ func init() {
 		ID:        "C17",
 		QuickSecs: 150, ThoroSecs: 1500,
 		Rule: "input-space exploration of the completion path, in-process (exit function and completion writer replaced through an overlay-only file): 5 trees (aliases, suggested and valid values, value completion function, static and dynamic argument completions, UnsetOptions wrapper, nested commands, with and without help command, lonesome dash, all three modes) x every sequence of earlier words of length <= Le over long options with values, command names and a positional " +
-			"x last word in {every prefix of every option name/alias and command/suggestion of the level reached, `-`, `--`, empty, `--k=`, `--k=<prefix>`, non-matching} x bash/zsh x three argument conventions of Parse; offered option names / commands / values compared as sets with the set computed from the definition and the reference model's level, " +
-			"sortedness, parser acceptance of every offered option and command, no CommandFn, exit path; distinct_nontrivial = distinct in-domain (definition, COMP_LINE, target, convention) cases",
+			"x last word in {every prefix of every option name/alias and command/suggestion of the level reached, `-`, `--`, empty, `--k=`, `--k=<prefix>`, non-matching} x bash/zsh x three argument conventions of Parse, and (bash) the same line with its words separated by two blanks or by a tab; offered option names / commands / values compared as sets with the set computed from the definition and the reference model's level, " +
+			"sortedness, parser acceptance of every offered option and command, no CommandFn, exit path (also when the stream the candidates are written to fails); distinct_nontrivial = distinct in-domain (definition, COMP_LINE, target, convention) cases",
 		Assume: []string{"zone U12 (last word in the value position of the previous option, after `--`, after words that do not parse) is executed but not compared", "require-order is not combined with completion"},
 		Run: func(c *RunCtx) {
 			res := c.Res
@@ -450,9 +469,12 @@ func init() {
 					lv := c17LevelOf(def, exE.Level)
 					for _, last := range c17LastWords(def, lv) {
 						for _, zsh := range []bool{false, true} {
-							for conv := 0; conv < 3; conv++ {
+							for conv := 0; conv < 5; conv++ {
 								if conv == 2 && last == "" {
 									continue
+								}
+								if conv >= 3 && (len(earlier) == 0 || zsh || last == "") {
+									continue // other separators: only where there is an earlier word to separate
 								}
 								cc := &c17Case{Def: def, Earlier: append([]string{}, earlier...), Last: last, Zsh: zsh, Conv: conv}
 								res.Evaluations++
